@@ -159,6 +159,60 @@ func (c *Ctx) TPkg(rel string) *packages.Package { return c.P.ByPath[c.PkgPath(r
 // Fn finds a package-level function or a method: "newEnvironment", "Environment.TryTransition"
 // (method on T or *T). Returns nil if absent.
 func (c *Ctx) Fn(rel, name string) *ssa.Function {
+	if f := c.fnExact(rel, name); f != nil {
+		return f
+	}
+	// the function may have been turned into a method, moved to another receiver type of the same package, or a method
+	// into a plain function: accept a declaration of the same bare name if it is unique in the package
+	p := c.Pkg(rel)
+	if p == nil {
+		return nil
+	}
+	bare := name
+	if i := strings.Index(name, "."); i >= 0 {
+		bare = name[i+1:]
+	}
+	var cands []*ssa.Function
+	if f := p.Func(bare); f != nil && f.Blocks != nil {
+		cands = append(cands, f)
+	}
+	for _, m := range p.Members {
+		t, ok := m.(*ssa.Type)
+		if !ok {
+			continue
+		}
+		if named, isN := t.Type().(*types.Named); isN && named.TypeParams().Len() > 0 {
+			continue
+		}
+		seen := map[*ssa.Function]bool{}
+		for _, ty := range []types.Type{t.Type(), types.NewPointer(t.Type())} {
+			ms := c.Prog.MethodSets.MethodSet(ty)
+			for i := 0; i < ms.Len(); i++ {
+				sel := ms.At(i)
+				if sel.Obj().Name() != bare || sel.Obj().Pkg() != p.Pkg {
+					continue
+				}
+				if f := c.Prog.MethodValue(sel); f != nil && f.Synthetic == "" && f.Blocks != nil && !seen[f] {
+					seen[f] = true
+					cands = append(cands, f)
+				}
+			}
+		}
+	}
+	uniq := map[*ssa.Function]bool{}
+	for _, f := range cands {
+		uniq[f] = true
+	}
+	if len(uniq) == 1 {
+		for f := range uniq {
+			c.Assume(fmt.Sprintf("anchor %s.%s resolved by its bare name to %s (moved between function and method forms)", rel, name, c.RelName(f)))
+			return c.mark(f)
+		}
+	}
+	return nil
+}
+
+func (c *Ctx) fnExact(rel, name string) *ssa.Function {
 	p := c.Pkg(rel)
 	if p == nil {
 		return nil
@@ -303,6 +357,9 @@ func (c *Ctx) addFn(f *ssa.Function) {
 	}
 	if c.Generated(f) {
 		return
+	}
+	if strings.HasSuffix(f.Name(), "_inlexpanded") {
+		return // a helper whose every use was expanded in place (internal/inl): its body lives on in its callers
 	}
 	c.allFns[f] = true
 	for _, a := range f.AnonFuncs {
